@@ -238,6 +238,13 @@ def install(equivariant=True):
     def wrapper_call(self, x):
         S = SESSION[0]
         mods = self.modules
+        # pre-condition of the relational contract on the EQUIVARIANT path: a per-type wrapped module (a pointwise activation,
+        # a plain normalisation) commutes with the group action only on true scalars -- a pseudo-scalar changes sign under
+        # improper elements, higher orders mix components.  (On the conventional path the wrapper carries a shape contract only.)
+        if equivariant:
+            bad = [tuple(k) for k in x.keys() if tuple(k) != (0, 0)]
+            if bad:
+                S.problems.append(("pre", f"LayerWrapper (a plain per-type module) applied to blocks of type {bad} on the equivariant path: not covered by an equivariance contract (only true scalars are)"))
 
         def make_out():
             out = []
